@@ -8,10 +8,10 @@ Progs == TLCEval(ndJsonDeserialize(IOEnv.PROGS))
    first, so naming k before v here fixes the order (checked by the ASSUME in Values.tla). *)
 FieldOrder == [k |-> 0, v |-> 0]
 VARIABLES m, pid
-Init == \E i \in 1..Len(Progs) : m = InitMachine(Progs[i].prog) /\ pid = Progs[i].id
+Init == \E i \in 1..Len(Progs) : m = InitMachineFull(Progs[i].snips, Progs[i].mods) /\ pid = Progs[i].id
 Next == m.status = "run" /\ m.n < MaxSteps /\ m' = Step(m) /\ UNCHANGED pid
 Spec == Init /\ [][Next]_<<m, pid>>
 Emit == (m.status = "done" \/ m.n >= MaxSteps) =>
-          PrintT(<<"RUN", ToJson([id |-> pid, out |-> m.out, result |-> m.result, trig |-> m.trig, oom |-> m.oom,
+          PrintT(<<"RUN", ToJson([id |-> pid, runs |-> m.runs, out |-> m.out, result |-> m.result, trig |-> m.trig, oom |-> m.oom,
                                    done |-> m.status = "done", steps |-> m.n])>>)
 ===============================================================================
